@@ -15,6 +15,9 @@ import (
 
 var c13Replies [][]byte
 
+// when set, called from the sending goroutine for every reply
+var c13OnReply func(data []byte)
+
 // when set, sending a "done" reply blocks until the gate is closed
 var c13SendGate chan struct{}
 
@@ -27,8 +30,12 @@ func c13Setup() *DatabaseAPI {
 	_, err := database.Register(&database.Database{Name: "tdb", Description: "t", StorageType: "hashmap"})
 	rt.Assert(err == nil, "setup/register-database")
 	c13SendGate = nil
+	c13OnReply = nil
 	api := CreateDatabaseAPI(func(data []byte) {
 		c13Replies = append(c13Replies, append([]byte{}, data...))
+		if c13OnReply != nil {
+			c13OnReply(data)
+		}
 		if c13SendGate != nil && bytes.HasSuffix(data, []byte("|done")) {
 			<-c13SendGate // a slow connection: the writer blocks on this reply
 		}
@@ -272,4 +279,51 @@ func VerifC13_CancelRaces() {
 	rt.Assert(len(api.subs) == 0, "cancelraces/subscription-removed")
 	api.subsLock.Unlock()
 	rt.Reach("cancelraces-end")
+}
+
+// ---- qsub: a matching write that lands while the query phase is still
+// running is not lost: it shows up as a notification after the query replies ----
+
+func VerifC13_QsubWriteDuringQuery() {
+	rt.SchedYieldOnly(true)
+	rt.CodecFaults(false) // serialising the (JSON) records for the replies does not fail
+	api := c13Setup()
+	k := 1 + rt.Choice("records", 2)
+	c13Seed(api, []string{"tdb:q/1", "tdb:q/2"}[:k]...)
+	target := []string{"tdb:q/1", "tdb:q/2", "tdb:q/new"}[rt.Choice("target", 3)]
+	written := false
+	c13OnReply = func(data []byte) {
+		// the client writes when it sees the first record of the query phase
+		if !written && bytes.HasPrefix(data, []byte("q7|ok|")) {
+			written = true
+			api.Handle(append(c13Msg("w8", "update", target+"|"), 'J', '{', '}'))
+			rt.Quiesce(time.Second) // the write completes while this reply is being sent
+		}
+	}
+	api.Handle(c13Msg("q7", "qsub", "query tdb:q/"))
+	rt.Quiesce(3 * time.Second)
+	api.Handle([]byte("q7|cancel"))
+	rt.Quiesce(time.Second)
+	rt.Assert(written, "qsubwrite/write-issued-during-query-phase")
+	var kinds []string
+	success := false
+	for _, r := range c13Replies {
+		if bytes.HasPrefix(r, []byte("q7|")) {
+			kinds = append(kinds, c13Kind(r))
+		}
+		if bytes.HasPrefix(r, []byte("w8|success")) {
+			success = true
+		}
+	}
+	rt.Assert(success, "qsubwrite/write-succeeded")
+	// ok x k, done, one notification for the write, done after cancel
+	notified := 0
+	for _, kd := range kinds {
+		if kd == "upd" || kd == "new" || kd == "warning" {
+			notified++
+		}
+	}
+	rt.Assert(notified == 1, "qsubwrite/write-during-query-phase-is-notified-once")
+	rt.Assert(len(kinds) > 0 && kinds[len(kinds)-1] == "done", "qsubwrite/ends-with-done")
+	rt.Reach("qsubwrite-end")
 }
